@@ -345,8 +345,13 @@ def key_pool(r: Any, family: str, n: int, fixture_ratio: float = 0.3) -> list[tu
         alg = int(alg_s)
         real = fx.ec_keys("P-256" if alg == 13 else "P-384")
         r.shuffle(real)
+        # the first key of every ECDSA profile: a fixture whose X coordinate begins with 0x04 — in the bare form (x || y) it starts
+        # like a SEC 1 prefixed point; only the LENGTH of the key tells the two forms apart
+        x04 = fx.ec_keys_x04("P-256" if alg == 13 else "P-384")
         for i in range(n):
-            if real and r.random() < min(0.5, 2 * fixture_ratio):
+            if i == 0 and x04:
+                pt = x04[r.randrange(len(x04))].ec_point(prefix=False)
+            elif real and r.random() < min(0.5, 2 * fixture_ratio):
                 pt = real.pop().ec_point(prefix=False)
             else:
                 pt = r.randbytes(64 if alg == 13 else 96)
@@ -357,9 +362,9 @@ def key_pool(r: Any, family: str, n: int, fixture_ratio: float = 0.3) -> list[tu
             out.append((alg, r.randbytes(32 if alg == 15 else 57)))
     elif family == "mixed":
         out.append((8, rsa_blob(r, 2048, 65537)))
-        out.append((13, r.randbytes(64)))
+        out.append((13, fx.ec_keys_x04("P-256")[0].ec_point(prefix=False)))  # both curves declared side by side, bare keys starting with 0x04
         out.append((10, rsa_blob(r, 1024, 3)))
-        out.append((14, r.randbytes(96)))
+        out.append((14, fx.ec_keys_x04("P-384")[0].ec_point(prefix=False)))
         while len(out) < n:
             out.append((8, rsa_blob(r, 2048, 65537)))
         out = out[:n]
